@@ -152,6 +152,8 @@ def isinstance_(I, v, cls):
             r = isinstance_(I, v, c)
         elif isinstance(c, VClass):
             r = isinstance1(I, v, c.name)
+        elif isinstance(c, VFunc) and c.kind == 'extern':
+            r = isinstance1(I, v, c.name)
         elif isinstance(c, VAny):
             raise Unsupported('isinstance against an opaque class')
         else:
@@ -431,6 +433,15 @@ def str_method(I, self, meth, args, kwargs, fr, node):
             from .grid import CellArr, IntArr
             F = z3.Function('GridText', z3.StringSort(), CellArr, IntArr, z3.IntSort(), z3.StringSort())
             return VStr(F(s.t, g['cell'], g['rowlen'], g['len'].t), 's')
+        if isinstance(a0, VObj) and ctx.heap[a0.oid].kind == 'symlist':
+            h = ctx.heap[a0.oid]
+            comps = h.fields['comps']
+            if not h.fields.get('scalar') or comps[0][1].tag != 'Str':
+                raise Unsupported('join of a symbolic list of non-strings')
+            if comps[0][1].args[0] != s.kind:
+                ctx.oblige('safe.join-type', False, 'safe')
+                I.raise_exc('TypeError')
+            return VStr(S.join_list(s.t, comps[0][0], h.fields['len'].t), s.kind)
         items = I.concrete_items(args[0])
         if not items:
             return VStr('', s.kind)
